@@ -11,7 +11,8 @@ import time
 
 ROOT = os.path.dirname(os.path.dirname(os.path.abspath(__file__)))
 REPO = os.environ.get("VERIF_REPO", "/repo")
-HARNESS = os.path.join(ROOT, "harness")
+HARNESS = os.environ.get("VERIF_HARNESS", os.path.join(ROOT, "harness"))
+OUT = os.environ.get("VERIF_OUT", ROOT)   # where evidence/ and replays/ go (scratch dir for mutant runs)
 FV = os.path.join(HARNESS, "target", "release", "fv")
 SPECS = os.path.join(ROOT, "specs")
 JAVA_OPTS = "-Xss1g -XX:+UseParallelGC -Dtlc2.tool.queue.IStateQueue=StateDeque"
@@ -238,7 +239,7 @@ def load_known():
 
 # --------------------------------------------------------------------------- evidence / verdict
 def write_replay(prop, name, payload):
-    d = os.path.join(ROOT, "replays")
+    d = os.path.join(OUT, "replays")
     os.makedirs(d, exist_ok=True)
     h = hashlib.sha1(json.dumps(payload, sort_keys=True).encode()).hexdigest()[:10]
     p = os.path.join(d, "%s_%s_%s.json" % (prop, name, h))
@@ -248,7 +249,7 @@ def write_replay(prop, name, payload):
 
 
 def write_evidence(prop, tier, seed, coverage, assumptions, wall_s, violations, extra=None):
-    d = os.path.join(ROOT, "evidence")
+    d = os.path.join(OUT, "evidence")
     os.makedirs(d, exist_ok=True)
     ev = {"property_id": prop, "tier": tier, "seed": seed, "level": "model_checking", "coverage": coverage,
           "assumptions": assumptions, "wall_s": round(wall_s, 1), "violations": violations}
